@@ -254,7 +254,21 @@ class Session:
                 if kind.startswith('err'):
                     self.stats['errors'] += 1
 
+    def check_no_aliasing(self, ev):
+        """no two keys may share one Python container (the model has value semantics); turn it into a failing history"""
+        seen = {}
+        for i, db in self.impl.srv.dbs.items():
+            for k, it in list(db._dict.items()):
+                v = it.value
+                if isinstance(v, bytes) or v is None:
+                    continue
+                if id(v) in seen and seen[id(v)] != (i, k):
+                    raise Divergence(self.index, ev, 'aliasing', {'shared container': '%r and %r hold the same %s object' % (
+                        seen[id(v)], (i, k), type(v).__name__)}, 'the model stores independent values')
+                seen[id(v)] = (i, k)
+
     def compare_snap(self, ev):
+        self.check_no_aliasing(ev)
         si = self.impl.snapshot()
         sm = self.model.snap()
         if self.aio:
